@@ -132,6 +132,17 @@ Theorem C01_small_step_near_mass_action : forall kt ntot sn n nn al m eps eps2 :
 Proof. exact small_step_near_mass_action. Qed.
 Print Assumptions C01_small_step_near_mass_action.
 
+(* ... hence every reaction among such species (nu orthogonal to the constraint columns, so that sum nu_i (A lam)_i = 0) is
+   balanced to within delta * sum |nu_i| kT: the law of mass action in quantitative form for a converged composition
+   (entries (nu_i, mu_i, (A lam)_i); delta from C01_small_step_near_mass_action) *)
+Theorem C01_converged_reactions_balanced : forall (kt delta : R) (l : list (R * R * R)),
+  0 < kt ->
+  (forall t, In t l -> Rabs ((t_mu t + t_al t) / kt) <= delta) ->
+  Rsum (map (fun t => t_nu t * t_al t) l) = 0 ->
+  Rabs (Rsum (map (fun t => t_nu t * t_mu t) l) / kt) <= delta * Rsum (map (fun t => Rabs (t_nu t)) l).
+Proof. exact reaction_balance_bound. Qed.
+Print Assumptions C01_converged_reactions_balanced.
+
 (* non-vacuity: O2 <-> 2 O with columns (element O; charge): nu = (1, -2) is a reaction *)
 Example C01_reaction_exists : Forall (fun c => dotR c [1; -2] = 0) [[2; 1]; [0; 0]].
 Proof. repeat constructor; unfold dotR; cbn; lra. Qed.
